@@ -221,6 +221,77 @@ def prefix_readers_rule(F, G, rep, R):
     rep.ob("prefix.if_more", ok, "io::slippi::de::if_more", "shape", "if_more must be `present <=> bytes remain` (None when the cursor is empty, Some(f(r)?) otherwise)")
 
 
+def cursor_discipline_rule(F, G, rep, R):
+    """the payload cursor of an event decoder is consumed only by fixed-width reads (byteorder `read_*`, `read_exact` into a
+    buffer), by handing it to another decoder, or through `if_more`: anything that takes "the rest of the payload"
+    (`mem::take(r)`, `*r`, `r.to_vec()`, `r.iter()`, `read_to_end`, `bytes()`) grows with the bytes a newer version appends"""
+    n_uses = 0
+    for fn in sorted(R):
+        b = F.body(fn)
+        if b is None:
+            continue
+        cids = set(p.get("id") for p in b["tir"]["params"] if p.get("k") == "Bind" and (p.get("ty") or "") == "&mut &[u8]")
+        # closure parameters of that type (the `|r|` of an if_more tail) are cursors too
+        for x in tir.walk(b["tir"]["value"]):
+            if x.get("k") == "Closure":
+                for p in x.get("params", []):
+                    if p.get("k") == "Bind" and (p.get("ty") or "") == "&mut &[u8]":
+                        cids.add(p.get("id"))
+        if not cids:
+            continue
+        par = {}
+        for x in tir.walk(b["tir"]["value"]):
+            for c in tir.children(x):
+                if isinstance(c, dict):
+                    par[id(c)] = x
+        bad = []
+        for x in tir.walk(b["tir"]["value"]):
+            if not (x.get("k") == "Path" and x.get("res") == "local" and x.get("id") in cids):
+                continue
+            n_uses += 1
+            e = x
+            p = par.get(id(e))
+            # reborrows: `&mut *r`, `r.by_ref()`
+            while p is not None and (p.get("k") == "AddrOf" or (p.get("k") == "Unary" and p.get("op") == "Deref" and (par.get(id(p)) or {}).get("k") == "AddrOf")
+                                     or (p.get("k") == "MethodCall" and p["method"] == "by_ref" and p["recv"] is e) or (p.get("k") in ("Expr",) )):
+                e, p = p, par.get(id(p))
+            ok = False
+            if p is not None and p.get("k") == "MethodCall" and p["recv"] is e:
+                d = declared(p) or ""
+                ok = d.startswith("byteorder::ReadBytesExt::read_") or d == "std::io::Read::read_exact" or (fn == "io::slippi::de::if_more" and p["method"] == "is_empty")
+                if not ok and p["method"] == "to_vec" and not p.get("args"):
+                    # the raw block kept for round-tripping: `let bytes = r.to_vec();` used only as the `bytes` field
+                    q = par.get(id(p))
+                    while q is not None and (q.get("k") in ("Expr",) or (q.get("k") == "Call" and (q.get("dk") or "").startswith("Ctor") and len(q.get("args", [])) == 1)):
+                        q = par.get(id(q))
+                    if q is not None and q.get("k") == "Let" and q["pat"].get("k") == "Bind":
+                        bid = q["pat"]["id"]
+                        uses = [u for u in tir.walk(b["tir"]["value"]) if u.get("k") == "Path" and u.get("res") == "local" and u.get("id") == bid]
+                        def in_bytes_field(u):
+                            a = par.get(id(u))
+                            if a is not None and "k" not in a and "name" in a:
+                                return a["name"] == "bytes"      # a struct-literal field record
+                            while a is not None and a.get("k") in ("Call", "Expr") and ((a.get("dk") or "").startswith("Ctor") or a.get("k") == "Expr"):
+                                a2 = par.get(id(a))
+                                if a2 is not None and a2.get("k") == "Struct":
+                                    return any(f["name"] == "bytes" and f["e"] is a for f in a2["fields"])
+                                a = a2
+                            return a is not None and a.get("k") == "Struct" and any(f["name"] == "bytes" and f["e"] is u for f in a["fields"])
+                        ok = bool(uses) and all(in_bytes_field(u) for u in uses)
+            elif p is not None and p.get("k") == "MethodCall" and any(a is e for a in p.get("args", [])):
+                cal = F.fns.get(tir.callee(p) or declared(p) or "")
+                ok = cal is not None and any((t or "").replace(" ", "") == "&mut&[u8]" for t in (cal.get("inputs") or []))
+            elif p is not None and p.get("k") == "Call" and any(a is e for a in p.get("args", [])):
+                d = declared(p) or ""
+                cal = F.fns.get(d)
+                ok = (cal is not None and any((t or "").replace(" ", "") == "&mut&[u8]" for t in (cal.get("inputs") or []))) or (p.get("res") == "local" and fn == "io::slippi::de::if_more")
+            if not ok:
+                bad.append((tir.pretty(p if p is not None else x)[:60], tir.sp(x)))
+        rep.ob("prefix.cursor-discipline", not bad, fn, "cursor",
+               "%s uses its payload cursor other than by fixed-width reads / handing it to a decoder (%s): taking the rest of the payload makes the decoded value depend on bytes a newer version appends" % (fn, bad[:2]))
+    rep.floor("payload-cursor uses", n_uses, 120)
+
+
 def monotone_rule(F, G, rep, R):
     ev = order.Evaluator(F)
     mx = ev.const_value("io::slippi::MAX_SUPPORTED_VERSION")
@@ -345,6 +416,7 @@ def run(F, rep, tier):
     skip_size_rule(F, rep)
     unknown_path_rule(F, rep)
     prefix_readers_rule(F, G, rep, R)
+    cursor_discipline_rule(F, G, rep, R)
     monotone_rule(F, G, rep, R)
     size_trigger_rule(F, G, rep, R)
     trailing_rule(F, rep)
